@@ -47,14 +47,22 @@ Lemma tie_replace_unescaped :
           go_replace = true.
 Proof. vm_compute. reflexivity. Qed.
 
+(* ... and the count it returns *)
+Lemma tie_replace_count :
+  forallb (fun p : String.string * N =>
+             N.eqb (N.of_nat (count_unescaped (t2l (fst p)) (t2l go_replace_uri))) (snd p)) go_replace_count = true.
+Proof. vm_compute. reflexivity. Qed.
+
 (* escapeDollarSigns on every string over {$,a}, length <= 9 *)
 Lemma tie_unescape :
   forallb (fun p : String.string * String.string => str_eqb (unescape (t2l (fst p))) (t2l (snd p))) go_unescape = true.
 Proof. vm_compute. reflexivity. Qed.
 
-(* the loop bound of expandValueRecursively *)
-Lemma tie_max_rounds : max_rounds = go_max_rounds.
-Proof. reflexivity. Qed.
+(* the work budget of expandValueRecursively: the constant, and the number of rounds the code makes on a value that
+   changes in every round and expands one occurrence per round (a whole-value self-cycle): budget + 1 *)
+Lemma tie_max_expansions :
+  N.of_nat max_expansions = go_max_expansions /\ (N.of_nat max_expansions + 1)%N = go_cycle_rounds.
+Proof. split; vm_compute; reflexivity. Qed.
 
 (* the tables are not empty (an empty dump would make the obligations vacuous) *)
 Lemma tie_tables_populated :
